@@ -944,7 +944,7 @@ struct EncOp
 };
 // E10 / E11 differ from E0 / E4 in the protocol version ONLY (same context, type and batch shape), so that
 // anything cached under a key that forgets the version collides
-static const std::vector<EncOp> kOps = {{'D', 1}, {'D', 0x0203}, {'S', 1}, {'S', 7}, {'R', 0}, {'E', 0}, {'E', 1}, {'E', 2}, {'E', 3}, {'E', 4}, {'E', 5}, {'E', 10}, {'E', 11}, {'E', 12}, {'E', 13}};
+static const std::vector<EncOp> kOps = {{'D', 1}, {'D', 0x0203}, {'S', 1}, {'S', 7}, {'R', 0}, {'E', 0}, {'E', 1}, {'E', 2}, {'E', 3}, {'E', 4}, {'E', 5}, {'E', 10}, {'E', 11}, {'E', 12}, {'E', 13}, {'G', 0}};
 
 // the (batch, context) pairs; 0..5 are the C09 alphabet, 6..9 additional finals of C10
 static CaseSpec encodeArg(int k)
@@ -1003,6 +1003,17 @@ static std::vector<Bytes> applyOp(W& w, HistState& s, const EncOp& o, bool judge
         case 'D': s.enc.setDeviceId((uint16_t) o.arg); s.dev = (uint16_t) o.arg; s.cm.reset(); break;
         case 'S': s.enc.setStreamId((uint8_t) o.arg); s.str = (uint8_t) o.arg; s.cm.reset(); break;
         case 'R': s.enc.restart(); s.cm.reset(); break;
+        case 'G':
+        {
+            // observation as an operation: the getters between two other operations (what they report is judged when a frame was
+            // emitted since the last reset; whatever they remember must not change what follows)
+            uint16_t c = s.enc.getSequenceCounter();
+            if (judge09 && s.cm.any && c != s.cm.last)
+                w.fail("reported-counter-differs-from-last-frame", fmt("getSequenceCounter()=%u, last emitted frame carries %u", c, s.cm.last));
+            if (judge09 && (s.enc.getDeviceId() != s.dev || s.enc.getStreamId() != s.str))
+                w.fail("reported-identity-differs", fmt("getDeviceId/getStreamId = 0x%x/0x%x, configured 0x%x/0x%x", s.enc.getDeviceId(), s.enc.getStreamId(), s.dev, s.str));
+            break;
+        }
         case 'X':
         {
             // encode(E<arg>) aborted by an exception from the packet source after the first packet (C10's fault round only: frames
@@ -1365,7 +1376,7 @@ int main(int argc, char** argv)
     if (prop == "C09")
     {
         const int depth = thorough ? 7 : 5;
-        run.rule = "every history over the 15-op alphabet {setDeviceId x2, setStreamId x2, restart, encode x9 (batch,context,version) triples, two of which differ from another one in the version only, one with a zero-length payload between two type changes, one with message type 0; all packets carry their own non-zero ids} up to the "
+        run.rule = "every history over the 16-op alphabet {setDeviceId x2, setStreamId x2, restart, the getters (an observation between two operations), encode x10 (batch,context,version) triples, two of which differ from another one in the version only, one with a zero-length payload between two type changes, one with message type 0; all packets carry their own non-zero ids} up to the "
                    "stated depth as a tree of copied real Encoder objects, every prefix judged by the counter/identity model; distinct = distinct "
                    "(frame structure of the last call, last counter, identity) outcomes";
         run.extra.push_back({"depth", mc::Json::num(depth)});
